@@ -9,6 +9,7 @@ from __future__ import annotations
 
 import ast
 import copy
+import itertools
 from fractions import Fraction as _Fraction
 
 from .absval import (AIter, RepList, ASuper, Lin, Sym, Opaque, Ch, Run, Rep, AbsStr, AObj, AFunc, AModule, AClass, ABuiltin,
@@ -89,7 +90,10 @@ def explore(make_interp, run, max_paths=4000):
             paths.append(Path(ch.trace, "raise", r.exc, it))
         stack.extend(ch.pending)
         if len(paths) > max_paths:
-            raise CannotDecide("path explosion (> %d paths)" % max_paths)
+            from collections import Counter
+            top = Counter(lab for p_ in paths[-200:] for lab, _v in p_.trace).most_common(3)
+            raise CannotDecide("path explosion (> %d paths); most frequent case splits: %s" % (
+                max_paths, "; ".join("%s (x%d)" % (short(l, 70), c) for l, c in top)))
     return paths
 
 
@@ -527,11 +531,12 @@ class Interp:
         for sub in node.values:
             v = self.eval(sub, frame)
             t = self.truth(v, sub)
+            definite = not isinstance(v, (Lin, Opaque)) or getattr(v, "nonnull", False)
             if isinstance(node.op, ast.And) and not t:
-                return v if not isinstance(v, (Lin, Opaque)) else False
+                return v if definite else False
             if isinstance(node.op, ast.Or) and t:
-                return v if not isinstance(v, (Lin, Opaque)) else True
-        if isinstance(v, (Lin, Opaque)):
+                return v if definite else True
+        if isinstance(v, (Lin, Opaque)) and not getattr(v, "nonnull", False):
             return isinstance(node.op, ast.And)
         return v
 
@@ -665,7 +670,10 @@ class Interp:
                 if (isinstance(a, Opaque) or isinstance(b, Opaque)) and not (getattr(a, "nonnull", False) or getattr(b, "nonnull", False)):
                     r = self.opaque_fork("is None: %s" % short(node), a, b)
                 return r if op is ast.Is else not r
-            r = a is b
+            r = a is b or (isinstance(a, AClass) and isinstance(b, AClass) and a.ci is b.ci) \
+                or (isinstance(a, ABuiltin) and isinstance(b, ABuiltin) and a.name == b.name)
+            if not r and (isinstance(a, Opaque) or isinstance(b, Opaque)):
+                r = self.opaque_fork("is: %s" % short(node), a, b)
             return r if op is ast.Is else not r
         if op in (ast.In, ast.NotIn):
             r = self.contains(b, a, node)
@@ -726,14 +734,25 @@ class Interp:
                 return res
             if any(isinstance(u, UnknownStr) for u in ua + ub):
                 return self.fork("eq-unknown-string: %s" % (short(node) if node is not None else "?"))
-            if isinstance(b, str) or (isinstance(b, AbsStr) and b.is_concrete()):
-                m = self._match_str(self.norm_str(_as_absstr(a)), b if isinstance(b, str) else b.concrete())
-                if m is not None:
-                    return m
-            if isinstance(a, str) or (isinstance(a, AbsStr) and a.is_concrete()):
-                m = self._match_str(self.norm_str(_as_absstr(b)), a if isinstance(a, str) else a.concrete())
-                if m is not None:
-                    return m
+            for x_, y_ in ((a, b), (b, a)):
+                if isinstance(y_, str) or (isinstance(y_, AbsStr) and y_.is_concrete()):
+                    kk = y_ if isinstance(y_, str) else y_.concrete()
+                    m = self._match_str(self.norm_str(_as_absstr(x_)), kk)
+                    if m is not None:
+                        return m
+                    # undetermined: split on whether the runs are empty and look again
+                    runs = [u_ for u_ in self.norm_str(_as_absstr(x_)).units() if isinstance(u_, Run)]
+                    if runs and all(isinstance(u_, (str, Ch, Run)) for u_ in self.norm_str(_as_absstr(x_)).units()):
+                        total = Lin({}, 0)
+                        for r_ in runs:
+                            for sy in r_.count.values():
+                                total = total + Lin.of(sy)
+                        lo_, hi_ = self.lin_interval(total)
+                        if lo_ <= 0 < hi_:
+                            self.compare_lin(ast.Eq, total, 0)
+                            m = self._match_str(self.norm_str(_as_absstr(x_)), kk)
+                            if m is not None:
+                                return m
             raise CannotDecide("string equality with runs: %r == %r" % (a, b))
         if type(a) in (int, bool, float, type(None)) and isinstance(b, (Ch, AbsStr)):
             return False
@@ -746,7 +765,12 @@ class Interp:
         if isinstance(a, Opaque) or isinstance(b, Opaque):
             return self.opaque_fork("eq: %s" % (short(node) if node is not None else "?"), a, b)
         if isinstance(a, (AObj, AFunc)) or isinstance(b, (AObj, AFunc)):
-            return a is b
+            if a is b:
+                return True
+            for x_ in (a, b):
+                if isinstance(x_, AObj) and x_.cls is not None and self.repo.find_method(x_.cls, "__eq__") is not None:
+                    return self.compare(ast.Eq, a, b, node)
+            return False
         return False if type(a) is not type(b) else (a == b)
 
     def contains(self, container, item, node=None):
@@ -789,7 +813,14 @@ class Interp:
                         maybe = True
                 if not maybe:
                     return False
-                return self.fork("in: %s" % short(node))
+                for k in container:
+                    if isinstance(k, str) and self._match_str(self.norm_str(item), k) is not False:
+                        try:
+                            if self.equal(item, k, node):
+                                return True
+                        except CannotDecide:
+                            return self.fork("in: %s" % short(node))
+                return False
             if isinstance(item, AObj) or any(isinstance(k, AObj) for k in container):
                 self.events.append(("in", container, item, node))
                 for k in container:
@@ -873,6 +904,8 @@ class Interp:
         fixed = sum(1 for x in u if isinstance(x, (str, Ch)))
         if fixed > len(k):
             return False
+        if all(isinstance(u[i], Run) for i in flex) and not self._possible_match(u, k):
+            return False
         if fixed == len(k) and len(pre) + len(post) == fixed and all(isinstance(u[i], Run) for i in flex) \
                 and all(unit_match(x, c) is True for x, c in zip(pre + post, k)):
             # every character of k is accounted for by the fixed pieces: equal iff all runs are empty
@@ -889,6 +922,39 @@ class Interp:
                 if unit_match(x, c) is False:
                     return False
         return None
+
+    def _possible_match(self, units, k):
+        """Can some concretisation of units (literal chars, Ch, Run) equal the concrete string k?  (Runs: any number
+        >= their known minimum of characters from their classes.)"""
+        def ch_can(x, c):
+            if isinstance(x, str):
+                return x == c
+            return x.contains_only([c]) is not False
+        states = {0}
+        for x in units:
+            nxt = set()
+            if isinstance(x, Run):
+                lo = 0
+                for sy in x.count.values():
+                    l_, _h = self.lin_interval(Lin.of(sy))
+                    lo += max(0, int(l_)) if l_ > -INF else 0
+                for p0 in states:
+                    q, n = p0, 0
+                    if lo == 0:
+                        nxt.add(q)
+                    while q < len(k) and any(ch_can(cl, k[q]) for cl in x.classes):
+                        q += 1
+                        n += 1
+                        if n >= lo:
+                            nxt.add(q)
+            else:
+                for p0 in states:
+                    if p0 < len(k) and ch_can(x, k[p0]):
+                        nxt.add(p0 + 1)
+            states = nxt
+            if not states:
+                return False
+        return len(k) in states
 
     def _maybe_equal_str(self, abss, k):
         return self._match_str(abss, k) is not False
@@ -960,7 +1026,14 @@ class Interp:
                 else:
                     raise CannotDecide("dict lookup with %r" % idx)
             if isinstance(idx, AbsStr):
-                raise CannotDecide("dict lookup with %r" % idx)
+                idx2 = self.norm_str(idx)
+                if idx2.is_concrete():
+                    idx = idx2.concrete()
+                else:
+                    for k in v:
+                        if isinstance(k, str) and self._match_str(idx2, k) is not False and self.equal(idx, k, node):
+                            return v[k]
+                    raise RaiseEx("KeyError", node)
             if _has_abs(idx):
                 return Opaque("dictget", [idx])
             if idx in v:
@@ -1379,6 +1452,44 @@ class Interp:
             E = recv.excluded
             if all(c.upper() in E and c.lower() in E for c in E):
                 return recv
+        if name == "count" and len(args) == 1 and isinstance(args[0], str) and len(args[0]) == 1:
+            c, total = args[0], Lin({}, 0)
+            recv2 = self.norm_str(recv if isinstance(recv, AbsStr) else AbsStr([recv]))
+            for a in recv2.atoms:
+                if isinstance(a, str):
+                    total = total + a.count(c)
+                elif isinstance(a, Ch):
+                    r = a.contains_only([c])
+                    if r is None:
+                        raise CannotDecide("count(%r) over %r" % (c, a))
+                    total = total + (1 if r else 0)
+                elif isinstance(a, Run):
+                    for cl in a.classes:
+                        r = cl.contains_only([c])
+                        if r is None:
+                            raise CannotDecide("count(%r) over %r" % (c, a))
+                        if r:
+                            total = total + Lin.of(a.count[cl.name])
+                elif _is_rep(a):
+                    total = total + a.count.scale(a.lit.count(c))
+                else:
+                    raise CannotDecide("count(%r) over %r" % (c, a))
+            return total.const if total.is_const() else total
+        if name in ("endswith", "startswith") and len(args) == 1 and isinstance(args[0], str) and len(args[0]) == 1:
+            recv2 = recv if isinstance(recv, AbsStr) else AbsStr([recv])
+            if not any(isinstance(a, (str, Ch)) for a in recv2.atoms):
+                n = self.call_builtin("len", [recv2], {}, node)
+                if not self.compare(ast.GtE, n, 1, node):
+                    return False
+            return self.equal(self.index(recv2, -1 if name == "endswith" else 0, node), args[0], node)
+        if name in ("endswith", "startswith") and len(args) == 1 and isinstance(args[0], tuple) and all(isinstance(x, str) and len(x) == 1 for x in args[0]):
+            recv2 = recv if isinstance(recv, AbsStr) else AbsStr([recv])
+            if not any(isinstance(a, (str, Ch)) for a in recv2.atoms):
+                n = self.call_builtin("len", [recv2], {}, node)
+                if not self.compare(ast.GtE, n, 1, node):
+                    return False
+            ch = self.index(recv2, -1 if name == "endswith" else 0, node)
+            return any(self.equal(ch, x, node) for x in args[0])
         if name == "split" and len(args) == 1 and isinstance(args[0], str) and len(args[0]) == 1:
             sep = args[0]
             recv2 = self.norm_str(recv if isinstance(recv, AbsStr) else AbsStr([recv]))
@@ -1469,6 +1580,26 @@ class Interp:
             args = [self.iterate(a, node) if (isinstance(a, AObj) and a.cls is not None and (self.repo.find_method(a.cls, "__getitem__") or self.repo.find_method(a.cls, "__iter__"))) else a for a in args]
         if name == "object.__init__":
             return None
+        if args and isinstance(args[0], LazyComp):
+            lc = args[0]
+            acc = ast.Name(id="__acc", ctx=ast.Load())
+            if name == "sum":
+                start = args[1] if len(args) > 1 else kwargs.get("start", 0)
+                return lc.run(self, start, lambda elt: [_acc_assign(ast.BinOp(left=acc, op=ast.Add(), right=elt))])
+            if name == "len":
+                return lc.run(self, 0, lambda elt: [ast.Expr(value=elt), _acc_assign(ast.BinOp(left=acc, op=ast.Add(), right=ast.Constant(value=1)))])
+            if name in ("list", "tuple") and len(args) == 1:
+                return lc
+            if name == "all":
+                return lc.run(self, True, lambda elt: [ast.If(test=ast.UnaryOp(op=ast.Not(), operand=elt),
+                                                               body=[_acc_assign(ast.Constant(value=False)), ast.Break()], orelse=[])])
+            if name == "any":
+                return lc.run(self, False, lambda elt: [ast.If(test=elt, body=[_acc_assign(ast.Constant(value=True)), ast.Break()], orelse=[])])
+            if name in ("set", "frozenset"):
+                return ACharSet(lc.run(self, "", lambda elt: [_acc_assign(ast.BinOp(left=acc, op=ast.Add(), right=elt))]))
+            raise CannotDecide("%s() of a comprehension over a string of unknown length" % name)
+        if name in ("set", "frozenset") and len(args) == 1 and isinstance(simplify_str(args[0]), (AbsStr, Ch)):
+            return ACharSet(simplify_str(args[0]))
         if name.startswith("ext:re."):
             from . import regexdom
             r = regexdom.builtin(self, name, args, kwargs, node)
@@ -1558,6 +1689,9 @@ class Interp:
                 raise RaiseEx("TypeError", node)  # 'float' object cannot be interpreted as an integer
             if all(isinstance(a, int) for a in args):
                 return list(range(*args))
+            lins = [Lin.of(a) if not isinstance(a, (str, bool)) else None for a in args]
+            if 1 <= len(args) <= 2 and all(l is not None for l in lins):
+                return ARange(Lin({}, 0) if len(args) == 1 else lins[0], lins[-1])
             return Opaque("range", args)
         if name in ("list", "tuple"):
             if not args:
@@ -1585,6 +1719,53 @@ class Interp:
                 if name == "all" and not t:
                     return False
             return name == "all"
+        if name in ("enumerate", "zip", "map", "filter"):
+            # normalise finite iterables (strings, dicts, sets, iterators with known items, abstract strings without runs)
+            first = 0 if name in ("enumerate", "zip") else 1
+            conv = list(args)
+            for i in range(first, len(conv) if name in ("zip", "map") else min(len(conv), first + 1)):
+                v = simplify_str(conv[i])
+                if isinstance(v, (str, dict, set, frozenset, Ch)) or (isinstance(v, AIter) and isinstance(v.items, list)) \
+                        or (isinstance(v, AbsStr) and not (v.has_run() or any(_is_rep(a) for a in v.atoms))) \
+                        or (isinstance(v, AObj) and v.cls is not None and (self.repo.find_method(v.cls, "__iter__") or self.repo.find_method(v.cls, "__getitem__"))):
+                    conv[i] = self.iterate(v, node)
+                elif name == "enumerate" and isinstance(v, AbsStr):
+                    start = args[1] if len(args) > 1 else kwargs.get("start", 0)
+                    return AEnumerate(self.norm_str(v), start)
+            args = conv
+        if name == "type" and len(args) == 1:
+            v = args[0]
+            if isinstance(v, AObj) and v.cls is not None:
+                return AClass(v.cls)
+            for pyt in (bool, int, float, str, list, tuple, dict, set, frozenset, bytes, type(None)):
+                if type(v) is pyt:
+                    return ABuiltin(pyt.__name__ if pyt is not type(None) else "NoneType")
+            if isinstance(v, Lin):
+                return ABuiltin("int")
+            if isinstance(v, (AbsStr, Ch)):
+                return ABuiltin("str")
+        if name == "dict":
+            out = {}
+            if args:
+                src = args[0]
+                if isinstance(src, AIter) and isinstance(src.items, list):
+                    src = src.items
+                if isinstance(src, dict):
+                    out.update(src)
+                elif isinstance(src, (list, tuple)) and all(isinstance(p_, (list, tuple)) and len(p_) == 2 for p_ in src):
+                    for k_, v_ in src:
+                        k_ = _unlin(simplify_str(k_))
+                        if isinstance(k_, AbsStr) and k_.is_concrete():
+                            k_ = k_.concrete()
+                        try:
+                            hash(k_)
+                        except TypeError:
+                            raise RaiseEx("TypeError", node)
+                        out[k_] = v_
+                else:
+                    return Opaque("builtin:dict", args)
+            out.update(kwargs)
+            return out
         if name == "enumerate" and isinstance(args[0], (list, tuple)):
             start = args[1] if len(args) > 1 and isinstance(args[1], int) else kwargs.get("start", 0)
             return [(i + start, x) for i, x in enumerate(args[0])]
@@ -1623,7 +1804,7 @@ class Interp:
         if name == "list" and args and isinstance(args[0], RepList):
             a0 = args[0]
             return RepList(a0.head, a0.period, a0.count, a0.tail)
-        if name in ("set", "frozenset") and (not args or isinstance(args[0], (list, tuple, set, frozenset))):
+        if name in ("set", "frozenset") and (not args or isinstance(args[0], (list, tuple, set, frozenset, str, dict))):
             try:
                 return set(args[0]) if args else set()
             except TypeError:
@@ -1673,6 +1854,7 @@ class Interp:
                 return args[0]
             if hi <= 0:
                 return -args[0]
+            return args[0] if self.compare_lin(ast.GtE, args[0], 0, node) else -args[0]
         if name == "str" and isinstance(args[0], (Ch, AbsStr)):
             return args[0]
         if name == "cycle" and isinstance(args[0], (list, tuple)):
@@ -1741,6 +1923,10 @@ class Interp:
 
     # ---------------------------------------------------------------- comprehensions
     def e_ListComp(self, node, frame):
+        if len(node.generators) == 1 and not isinstance(node, ast.DictComp):
+            itv = simplify_str(self.eval(node.generators[0].iter, frame))
+            if isinstance(itv, AbsStr) and any(isinstance(a, Run) or _is_rep(a) for a in self.norm_str(itv).atoms):
+                return LazyComp(node, frame, self.norm_str(itv), isinstance(node, ast.ListComp))
         out = []
 
         def rec(gi, fr):
@@ -1966,6 +2152,43 @@ class Interp:
         it = _unlin(self.eval(st.iter, frame))
         if isinstance(it, AbsStr) and (it.has_run() or any(_is_rep(a) for a in it.atoms)):
             broke = absloops.for_over_absstr(self, st, it, frame)
+        elif isinstance(it, AEnumerate) and isinstance(st.target, ast.Tuple) and len(st.target.elts) == 2:
+            # for i, c in enumerate(s)  ==  i = start - 1; for c in s: i += 1; body
+            # (i keeps start - 1 after an empty loop where Python would leave it unbound: only matters for code that
+            #  reads the index after a loop that may not have run)
+            idx = st.target.elts[0]
+            if not isinstance(idx, ast.Name):
+                raise CannotDecide("enumerate target %s" % short(idx))
+            start = Lin.of(it.start)
+            if start is None:
+                raise CannotDecide("enumerate start %r" % (it.start,))
+            frame.locals[idx.id] = _norm_lin(start - 1)
+            loop = ast.For(target=st.target.elts[1], iter=st.iter, orelse=[], body=[
+                ast.AugAssign(target=ast.Name(id=idx.id, ctx=ast.Store()), op=ast.Add(), value=ast.Constant(value=1))] + list(st.body))
+            ast.copy_location(loop, st)
+            ast.fix_missing_locations(loop)
+            broke = absloops.for_over_absstr(self, loop, it.text, frame)
+        elif isinstance(it, ARange):
+            # for x in range(lo, hi) with a symbolic bound  ==  n = hi - lo; while n > 0: x = hi - n; body; n -= 1
+            if any(isinstance(n, (ast.Break, ast.Continue)) for b in st.body for n in ast.walk(b)):
+                raise CannotDecide("break / continue in a loop over a symbolic range at %s" % short(st.iter))
+            uid = next(_range_ids)
+            nn, hn = "__n%d" % uid, "__hi%d" % uid
+            frame.locals[nn] = _norm_lin(it.hi - it.lo)
+            frame.locals[hn] = it.hi
+            uses_target = any(isinstance(n, ast.Name) and isinstance(n.ctx, ast.Load) and n.id in {x.id for x in ast.walk(st.target) if isinstance(x, ast.Name)}
+                              for b in st.body for n in ast.walk(b))
+            body = list(st.body)
+            if uses_target:
+                body = [ast.Assign(targets=[st.target], value=ast.BinOp(left=ast.Name(id=hn, ctx=ast.Load()), op=ast.Sub(), right=ast.Name(id=nn, ctx=ast.Load())))] + body
+            body = body + [ast.AugAssign(target=ast.Name(id=nn, ctx=ast.Store()), op=ast.Sub(), value=ast.Constant(value=1))]
+            loop = ast.While(test=ast.Compare(left=ast.Name(id=nn, ctx=ast.Load()), ops=[ast.Gt()], comparators=[ast.Constant(value=0)]), body=body, orelse=[])
+            ast.copy_location(loop, st)
+            ast.fix_missing_locations(loop)
+            absloops.while_loop(self, loop, frame)
+            frame.locals.pop(nn, None)
+            frame.locals.pop(hn, None)
+            broke = False
         elif isinstance(it, list):
             # Python's list iterator: index-based, sees mutations of the list made by the body
             broke = False
@@ -2028,6 +2251,107 @@ _BUILTINS = {"len", "range", "list", "tuple", "dict", "set", "sorted", "reversed
 
 
 _GEN_CACHE = {}
+
+
+class AEnumerate:
+    """enumerate(<abstract string of unknown length>, start)."""
+
+    def __init__(self, text, start):
+        self.text, self.start = text, start
+
+
+class ARange:
+    """range(lo, hi) with symbolic bounds."""
+
+    def __init__(self, lo, hi):
+        self.lo, self.hi = lo, hi
+
+    def a_len(self, interp):
+        return _norm_lin(self.hi - self.lo)
+
+    def __repr__(self):
+        return "range(%s, %s)" % (self.lo, self.hi)
+
+
+_range_ids = itertools.count(1)
+
+
+class ACharSet:
+    """set(<abstract string>): only inclusion in / equality with concrete sets of characters is decided."""
+
+    def __init__(self, text):
+        self.text = text
+
+    def _subset(self, interp, other, node):
+        if not isinstance(other, (set, frozenset)) or not all(isinstance(x, str) and len(x) == 1 for x in other):
+            raise CannotDecide("set of characters compared with %r" % (other,))
+        t = interp.norm_str(self.text if isinstance(self.text, AbsStr) else AbsStr([self.text]))
+        for a in t.atoms:
+            if isinstance(a, str):
+                if not set(a) <= other:
+                    return False
+            elif isinstance(a, Ch):
+                r = a.contains_only(other)
+                if r is None:
+                    raise CannotDecide("partition too coarse: %r in %r" % (a, other))
+                if not r:
+                    return False
+            elif isinstance(a, Run):
+                for cl in a.classes:
+                    r = cl.contains_only(other)
+                    if r is None:
+                        raise CannotDecide("partition too coarse: %r in %r" % (cl, other))
+                    if not r and not interp.compare_lin(ast.Eq, Lin.of(a.count[cl.name]), 0):
+                        return False
+            elif _is_rep(a):
+                if not set(a.lit) <= other and not interp.compare_lin(ast.Eq, a.count, 0):
+                    return False
+            else:
+                raise CannotDecide("set() of %r" % (a,))
+        return True
+
+    def a_compare(self, interp, op, other, reflected, node):
+        if (op is ast.LtE and not reflected) or (op is ast.GtE and reflected):
+            return self._subset(interp, other, node)
+        return NotImplemented
+
+    def a_method(self, interp, name, args, kwargs, node):
+        if name == "issubset" and len(args) == 1:
+            return self._subset(interp, set(args[0]) if isinstance(args[0], (set, frozenset, list, tuple, str)) else args[0], node)
+        return NotImplemented
+
+    def __repr__(self):
+        return "ACharSet(%r)" % (self.text,)
+
+
+class LazyComp:
+    """A comprehension / generator over an abstract string of unknown length; consumed by sum / all / any / join /
+    set-inclusion through a synthetic ``for`` loop that the fold summariser (absloops) handles."""
+
+    def __init__(self, node, frame, iterable, is_list):
+        self.node, self.frame, self.iterable, self.is_list = node, frame, iterable, is_list
+
+    def run(self, interp, init, body_of, result_name="__acc"):
+        """body_of(elt_expr) -> list of statements using the name __acc; returns the final __acc."""
+        from . import absloops
+        g = self.node.generators[0]
+        body = body_of(self.node.elt)
+        for c in reversed(g.ifs):
+            body = [ast.If(test=c, body=body, orelse=[])]
+        loop = ast.For(target=g.target, iter=g.iter, body=body, orelse=[])
+        ast.copy_location(loop, self.node)
+        ast.fix_missing_locations(loop)
+        fr = Frame(self.frame.fi, {result_name: init}, mod=self.frame.mod, cls=self.frame.cls)
+        fr.parent = self.frame
+        absloops.for_over_absstr(interp, loop, self.iterable, fr)
+        return fr.locals[result_name]
+
+    def __repr__(self):
+        return "LazyComp(%s)" % short(self.node, 40)
+
+
+def _acc_assign(value_expr):
+    return ast.Assign(targets=[ast.Name(id="__acc", ctx=ast.Store())], value=value_expr)
 
 
 def _uninterpreted(v, _d=0):
